@@ -176,6 +176,7 @@ def step (line : String) : String :=
     | some s => match KeyId.hexDecode s with | some b => "ok " ++ hexOfBytes b | none => "reject"
     | none => "bad-op"
   | "doc_dec" :: toks => docDec toks
+  | "key_dec" :: toks => keyDec toks
   | ["rfc3339", h] => runRfc3339 h
   | ["fmttime", a, b] => runFmtTime a b
   | "rule_dec" :: toks =>
